@@ -455,7 +455,7 @@ Lemma all_pty_complete s : In s all_pty.
 Proof. destruct s as [[| |] [|] [|] [|]]; vm_compute; tauto. Qed.
 
 Lemma all_penv_complete E : In E all_penv.
-Proof. destruct E as [[|] [|]]; vm_compute; tauto. Qed.
+Proof. destruct E as [[|] [|] [|]]; vm_compute; tauto. Qed.
 
 Lemma pty_close_case p : pty_close_ok p = true -> forall E s, close_case_ok p E s = true.
 Proof.
@@ -505,22 +505,38 @@ Proof. vm_compute. reflexivity. Qed.
 (* the premises are satisfiable by states that matter: EOF read, child defunct, fd open; and EOF read, child
    still running but exiting on SIGHUP *)
 Example pty_close_reaps_after_eof :
-  prun (mkPE false false) pty_close_now (mkPty CExited true false true) = (mkPty CReaped false true true, PDone) /\
-  prun (mkPE true false) pty_close_now (mkPty CRunning true false true) = (mkPty CReaped false true true, PDone).
+  prun (mkPE false false false) pty_close_now (mkPty CExited true false true) = (mkPty CReaped false true true, PDone) /\
+  prun (mkPE true false false) pty_close_now (mkPty CRunning true false true) = (mkPty CReaped false true true, PDone).
 Proof. split; vm_compute; reflexivity. Qed.
 
 (* the full statement is false of the code as it is: a child that closed its tty (EOF was read) but keeps
    running makes close() wait for it; and a child that survives SIGKILL makes it raise *)
 Theorem pty_close_full_refuted : ~ pty_close_full pty_close_now.
 Proof.
-  intros H. destruct (H (mkPE false true) (mkPty CRunning true false true) eq_refl) as [s' [K _]].
+  intros H. destruct (H (mkPE false false true) (mkPty CRunning true false true) eq_refl) as [s' [K _]].
   vm_compute in K. discriminate.
 Qed.
 
 (* a close() that skips the wait once EOF has been read leaves the defunct child *)
 Example pty_close_skip_after_eof_rejected :
-  pty_close_ok (PIf PNotClosed (PSeq PDelFileobj (PSeq (PIf PNotEofSeen (PIf PIsAlive PTerminateOrRaise)) PMarkClosed))) = false.
+  pty_close_ok (PIf PNotClosed (PSeq PDelFileobj (PSeq (PIf PNotEofSeen (PIf PIsAlive (PTerminateOrRaise true))) PMarkClosed))) = false.
 Proof. vm_compute. reflexivity. Qed.
+
+(* a child that is still running at close() and ignores the hang-up, SIGHUP and SIGINT (no EOF read: it keeps its tty):
+   close() as it is gets rid of it with SIGKILL and reaps it ... *)
+Example pty_close_stubborn_child :
+  prun (mkPE false false true) pty_close_now (mkPty CRunning true false false) = (mkPty CReaped false true false, PDone).
+Proof. vm_compute. reflexivity. Qed.
+
+(* ... a close() that does not escalate (terminate() without force=True) raises "could not terminate" although SIGKILL
+   would have worked, and leaves that child running, never waited for *)
+Example pty_close_no_force_rejected :
+  pty_close_ok (PIf PNotClosed (PSeq PDelFileobj (PSeq PNop (PSeq (PIf PIsAlive (PTerminateOrRaise false))
+                                                                   (PSeq PNop (PSeq PMarkClosed PNop)))))) = false /\
+  prun (mkPE false false true) (PIf PNotClosed (PSeq PDelFileobj (PSeq PNop (PSeq (PIf PIsAlive (PTerminateOrRaise false))
+                                                                   (PSeq PNop (PSeq PMarkClosed PNop))))))
+       (mkPty CRunning true false false) = (mkPty CRunning false false false, PRaised).
+Proof. split; vm_compute; reflexivity. Qed.
 
 (* spawn(): on every exit after the fork — the return and every raise — the child and the master fd are
    owned by a PtyProcess object (which transport.close(), or __del__ when the exception is dropped, closes) *)
